@@ -119,6 +119,9 @@ func c07Stages() []c07StageInfo {
 		{s: &refmodel.Drop{Items: []refmodel.DKItem{dm("a", "=", "1"), dm("b", "=", "3"), dm("a", "=~", "1")}}},
 		{s: &refmodel.Drop{Items: []refmodel.DKItem{dm("a", "=", "2")}}},
 		{s: &refmodel.Decolorize{}},
+		// text that begins and ends with a quotation mark (inside a raw string it stands for itself)
+		{s: &refmodel.LineFormat{T: refmodel.Template{tl(`"a=`), tv("a"), tl(` c="`), tv("c"), tl(`"`)}}},
+		{s: lfmt(tpl("d", tl(`"`), tv("b"), tl(`"`)))},
 		// the dot of a label expression does not match a line break
 		{s: &refmodel.Drop{Items: []refmodel.DKItem{dm("n", "=~", ".+")}}},
 		{s: &refmodel.Keep{Items: []refmodel.DKItem{dm("n", "=~", ".*"), dm("a", "!~", ".+")}}, isKeep: true},
